@@ -434,6 +434,8 @@ class CongClosureHOL:
         """
         u1 = self.add_term(t1)
         u2 = self.add_term(t2)
+        if u1 == u2:
+            return ProofTerm.reflexive(t1)
         explain = self.closure.explain(u1, u2)
         
         def get_proofterm(u, v):
